@@ -141,28 +141,35 @@ def gen_eph_safety(rng, seed):
     to a synchronized source, so that the parts of one ephemeral set arrive spread out in time."""
     N = rng.randint(12, 24)
     p = Pipe()
-    p.source('src', {'nframes': N, 'proc_ms': [rng.choice([0, 20, 60, 150, 250])], 'topics': ['main', 'aux'] + (['x'] if rng.random() < 0.4 else []), 'content': rng.choice([['data'], ['data', 'raw_bgr']]), 'end': 'idle'})
+    # 'sparse': the ephemeral branch publishes rarely (multi-topic sets spread over a slow link) while the synchronized half delivers
+    # a frame with an id gap every 200 ms: whatever state the receiver keeps for the half-received ephemeral set is exercised by
+    # newer-than-expected synchronized ids, and a synchronized frame held up "until the next ephemeral set" is held up for > 1 s
+    sparse = rng.random() < 0.2
+    if sparse:
+        N = rng.randint(50, 70)
+    p.source('src', {'nframes': N, 'proc_ms': [rng.choice([0, 20, 60, 150, 250]) if not sparse else 100], 'topics': ['main', 'aux'] + (['x'] if sparse or rng.random() < 0.4 else []), 'content': rng.choice([['data'], ['data', 'raw_bgr']]), 'end': 'idle'})
     abeh = {'proc_ms': [rng.choice([0, 30])], 'rename': {'main': 'main_a'}}
-    if rng.random() < 0.4:
-        abeh['skip'] = rng.choice([{'list': [1, 4]}, {'mod': 3, 'rem': [1]}, {'mod': 4, 'rem': [0, 1]}])     # id gaps on the synchronized source of the rejoin
+    if rng.random() < 0.4 or sparse:
+        abeh['skip'] = rng.choice([{'list': [1, 4]}, {'mod': 3, 'rem': [1]}, {'mod': 4, 'rem': [0, 1]}]) if not sparse else {'mod': 3, 'rem': [1]}     # id gaps (a newer-than-expected id, then a consecutive one) on the synchronized source of the rejoin
     p.relay('a', [{'pub': 'src', 'form': 'main'}], abeh)
     lvl = rng.choice([1, 1, 2])
-    p.relay('e', [{'pub': 'src', 'form': rng.choice(['all', [('main', 'main'), ('aux', 'aux')]]), 'eph': lvl}], {'proc_ms': [rng.choice([0, 100, 400])], 'rename': {'main': 'main_e', 'aux': 'aux_e', 'x': 'x_e'}})
-    k0in = [{'pub': 'a', 'form': 'all'}, {'pub': 'e', 'form': rng.choice(['all', [('main_e', 'main_e'), ('aux_e', 'aux_e')]]), 'eph': 1}]
+    p.relay('e', [{'pub': 'src', 'form': rng.choice(['all', [('main', 'main'), ('aux', 'aux')]]) if not sparse else 'all', 'eph': lvl}], {'proc_ms': [rng.choice([0, 100, 400, 1500]) if not sparse else rng.choice([1200, 1500])], 'rename': {'main': 'main_e', 'aux': 'aux_e', 'x': 'x_e'}})     # >= 1200: an ephemeral branch that publishes rarely
+    k0in = [{'pub': 'a', 'form': 'all'}, {'pub': 'e', 'form': rng.choice(['all', [('main_e', 'main_e'), ('aux_e', 'aux_e')]]) if not sparse else 'all', 'eph': 1}]
     if rng.random() < 0.5:
         k0in.reverse()
-    p.sink('k0', k0in, {'proc_ms': [rng.choice([0, 50])]})
+    p.sink('k0', k0in, {'proc_ms': [rng.choice([0, 50]) if not sparse else 0]})
     p.sink('e9', [{'pub': 'src', 'form': rng.choice(['all', 'star']), 'eph': rng.choice([1, 2])}], {'proc_ms': [rng.choice([0, 700])]})
     p.by_id['src']['config']['outputs_required'] = 'a'
     p.by_id['a']['config']['outputs_required'] = 'k0'
     for n in p.nodes:
         n['start_ms'] = rng.choice([0, 0, rng.randint(0, 400)])
-    link = {'max_delay_ms': rng.choice([10, 50, 95]), 'conn_ms': [0, 30], 'sub_ms': [0, 20]}
+    link = {'max_delay_ms': rng.choice([10, 50, 95]) if not sparse else 95, 'conn_ms': [0, 30], 'sub_ms': [0, 20]}
     expect = [q for q in range(N) if not world.skip_pred(abeh, q)]
     scn = scenarios.finish(p, seed, link, 60000, family='eph-safety', stop_counts={'k0': len(expect)}, grace_ms=500, stop_when_all_done=False, expect_k0=expect)
-    if rng.random() < 0.4:
+    scn['sparse'] = sparse
+    if rng.random() < 0.4 and not sparse:
         scn['loss'] = {'p': rng.choice([0.1, 0.3]), 'links': [['src', 'e'], ['src', 'e9'], ['e', 'k0']]}
-    if rng.random() < 0.3:
+    if rng.random() < 0.3 and not sparse:
         # the PUBLISHER (or the ephemeral branch) goes away and comes back - cleanly (CLOSE) or killed - while ephemeral consumers listen:
         # what they receive afterwards must still be complete sets in non-decreasing order per incarnation
         victim = rng.choice(['src', 'src', 'e'])
@@ -188,7 +195,7 @@ def judge_safety(w, scn, res):
                 break
     r2 = common.Result()
     for mech, msg in monitors.check_sets(w, t1, r2):
-        if mech in ('partial-ephemeral-set', 'mixed-ids-within-source', 'partial-set', 'mixed-ids'):
+        if mech in ('partial-ephemeral-set', 'mixed-ids-within-source', 'partial-set', 'mixed-ids', 'ephemeral-set-mixes-ids', 'ephemeral-set-mixes-publisher-incarnations'):
             bad.append((mech, msg))
     for mech, msg in monitors.check_order(w, t1, r2):
         if mech in ('ephemeral-reorder', 'content-altered', 'duplicate', 'reorder'):
@@ -200,6 +207,19 @@ def judge_safety(w, scn, res):
         res.count('sync_half_frames_compared', len(got))
         # with a lossy ephemeral link the documented all-or-nothing rule may leave k0 waiting for the rest of a half-lost
         # ephemeral set once the source has gone idle (tail of a finite run): then only the prefix is judged
+        if not scn.get('loss'):
+            # ... and promptly: the ephemeral source may hold a complete synchronized frame back only while one of ITS sets is in
+            # transit (topic messages of one set spread over at most one link delay), never until its next publication
+            t_pub = {mid: t for t, inc, mid in monitors.publications(w, 'a')}
+            worst = 0
+            for ev in w.clog:
+                if ev['ev'] == 'process' and ev['node'] == 'k0' and ev['ins'] and 'main_a' in ev['ins']:
+                    q = ev['ins']['main_a']['seq']
+                    if q in t_pub:
+                        worst = max(worst, ev['t'] - t_pub[q])
+            res.maxi('sync_frame_latency_at_rejoin_ms', int(worst / 1e6))
+            if worst > 700_000_000:
+                bad.append(('sync-frame-held-up-by-ephemeral-source', f'k0 was handed a synchronized frame {worst / 1e6:.0f} ms after a published it (link delay <= {scn["link"]["max_delay_ms"]} ms, k0 needs <= 50 ms per frame, nothing lost): its ephemeral co-source held it up'))
         want = scn['expect_k0'] if not scn.get('loss') else scn['expect_k0'][:len(got)]
         if got != want:
             j = next((i for i, (a_, b_) in enumerate(zip(got, scn['expect_k0'])) if a_ != b_), min(len(got), len(scn['expect_k0'])))
@@ -280,7 +300,7 @@ def judge_pair(w0, w1, s0, s1, nsync, res):
     # (d)
     r2 = common.Result()
     for mech, msg in monitors.check_sets(w1, t1, r2):
-        if mech in ('partial-ephemeral-set', 'mixed-ids-within-source'):
+        if mech in ('partial-ephemeral-set', 'mixed-ids-within-source', 'ephemeral-set-mixes-ids', 'ephemeral-set-mixes-publisher-incarnations'):
             bad.append((mech, msg))
     for mech, msg in monitors.check_order(w1, t1, r2, consumers={e['cons'] for e in t1.edges if e['eph']}):
         if mech in ('ephemeral-reorder', 'content-altered'):
